@@ -114,7 +114,9 @@ def make_probe_case(cid, rng, cp):
     }
     world = {'id': cid, 'layers': {'L1': {'kind': 'class', 'bases': [], 'hooks': ['setUp', 'tearDown']}},
              'layer_order': ['L1'], 'tests': tests,
-             'classes': {'TP': {'tests': ['t1', 't2', 't3', 't4', 't5', 't6'], 'layer': 'L1'}}}
+             # one report file per position, so that a malformed file names the position
+             'classes': {'TM': {'tests': ['t1', 't2'], 'layer': 'L1'}, 'TT': {'tests': ['t3', 't4'], 'layer': 'L1'},
+                         'TN': {'tests': ['t5', 't6']}}}
     args, rep = [], 1
     r = rng.random()
     if r < 0.2:
@@ -123,10 +125,10 @@ def make_probe_case(cid, rng, cp):
         args = ['--buffer']
     elif r < 0.5:
         args = ['-v']
-    f = 'tests.TP.xml'
     return {'id': cid, 'world': world, 'args': args, 'repeat': rep, 'name_classes': {},
             'msg_classes': ['U+%04X' % cp], 'text_classes': [],
-            'probes': [{'cp': cp, 'pos': p, 'file': f} for p in ('message', 'traceback', 'name')]}
+            'probes': [{'cp': cp, 'pos': p, 'file': 'tests.%s.xml' % c}
+                       for p, c in (('message', 'TM'), ('traceback', 'TT'), ('name', 'TN'))]}
 
 
 def make_fault_case(cid, rng, hook, how, rep):
@@ -348,7 +350,12 @@ def run(chk, tier, seed, replay=None):
             n += 1
             cases.append(make_case('x%d' % n, rng, kinds, mcl, nm))
         # every code point of the control ranges and of the boundaries of Char, one world each
-        for cp in PROBE_CPS:
+        cps = list(PROBE_CPS)
+        if tier != 'quick':
+            cps = sorted(set(cps) | set(range(0x100)) | {0x9 - 1, 0xD + 1, 0xD7FF - 1, 0xE000 + 1, 0xFFFD - 1,
+                                                         0x10000 + 1, 0x10FFFF - 1}
+                         | {rng.randrange(0x110000) for _ in range(300)})
+        for cp in cps:
             n += 1
             cases.append(make_probe_case('x%d' % n, rng, cp))
         # layers whose setUp / tearDown fails
